@@ -15,6 +15,7 @@ import (
 	"net"
 	"os"
 	"sort"
+	"strings"
 	"sync"
 	"sync/atomic"
 	"time"
@@ -176,17 +177,27 @@ func main() {
 		run.Inconclusive("debug mode VERIF_C11_REPEAT_TIMEOUTS")
 		run.Finish()
 	}
-	for gi, g := range grid {
-		e := newEnv(run, be, g[0], g[1], nil)
+	// every proxy is composed before any traffic flows: VerifNewApp rewrites package-level settings that
+	// request handlers read, and a handler that outlives its connection (client reset the stream and
+	// left) has no synchronisation edge to this goroutine - the race detector would blame /repo for it
+	var envs []*env
+	for _, g := range grid {
+		envs = append(envs, newEnv(run, be, g[0], g[1], nil))
+	}
+	fe := newFaultEnv(run, be)
+	for gi, e := range envs {
+		e.base, _ = rig.Census(markers...)
 		e.timeouts()
 		if gi == 0 {
 			e.aborts()
 			e.stallsThenClose()
+			e.leavesAfterActions()
 		}
 		e.settle("end of environment " + e.name)
 		e.px.Stop()
 	}
-	faults(run, be)
+	fe.e.base, _ = rig.Census(markers...)
+	faults(run, be, fe)
 	run.Require("scenarios_abort", 50)
 	run.Require("scenarios_fault", 50)
 	run.Require("timeouts_judged", 6)
@@ -358,6 +369,59 @@ func (e *env) stallsThenClose() {
 	e.settle("after stalls")
 }
 
+// leavesAfterActions: an HTTP/2 client does a PRNG-composed sequence of legal and refused actions after a
+// served request and then leaves (FIN or RST): the connection must be closed and every goroutine end.
+func (e *env) leavesAfterActions() {
+	run := e.run
+	all := []string{"get", "refused-self-dependent-headers", "malformed-headers", "client-reset-stream", "ping", "priority-frame", "window-update", "window-update", "settings", "overlapping-requests"}
+	mr := run.Rand(1102)
+	var wg sync.WaitGroup
+	for i := 0; i < run.Pick(16, 120); i++ {
+		var seq []string
+		for k := 1 + mr.Intn(5); k > 0; k-- {
+			seq = append(seq, all[mr.Intn(len(all))])
+		}
+		wg.Add(1)
+		go func(i int, seq []string) {
+			defer wg.Done()
+			sc := scen{Kind: "leave-after-actions", Proto: "h2", Step: strings.Join(seq, "+"), RST: i%2 == 1, Env: e.name}
+			dialAt := time.Now()
+			s, err := rig.Dial(e.px.Addr, []string{"h2"}, nil, nil)
+			if err != nil {
+				return
+			}
+			local := s.Rec.Conn.LocalAddr()
+			if _, err := s.Do("GET", "/leave", "front.example", [][2]string{{"x-verif-tag", fmt.Sprintf("C11-leave-%d", i)}}, nil, 10*time.Second); err != nil {
+				s.Close()
+				return
+			}
+			for _, a := range seq {
+				h2Act(s, a)
+			}
+			s.Peer.Fence(5 * time.Second)
+			if tc, ok := s.Rec.Conn.(*net.TCPConn); ok && sc.RST {
+				tc.SetLinger(0)
+			}
+			cut := time.Now()
+			s.Rec.Conn.Close()
+			ac := e.find(local, dialAt, W)
+			run.Eval(1)
+			run.Add("scenarios_leave_after_actions", 1)
+			run.Distinct(fmt.Sprintf("%+v", sc))
+			if ac == nil {
+				return
+			}
+			select {
+			case <-ac.Done:
+			case <-time.After(2 * W):
+				run.Violation("not-closed-after-client-left", sc, "HTTP/2 client did %q and left; the proxy had not closed the connection %v later", sc.Step, time.Since(cut).Round(time.Millisecond))
+			}
+		}(i, seq)
+	}
+	wg.Wait()
+	e.settle("after leave-after-actions")
+}
+
 // stallAt advances the client to the named protocol step.
 func stallAt(c *net.TCPConn, step string, r interface{ Intn(int) int }) {
 	h := &hello.Hello{LegacyVersion: 0x0303, Compression: []byte{0}, Random: make([]byte, 32), Ciphers: []uint16{0xc02f, 0x009c, 0x1301},
@@ -402,6 +466,43 @@ func stallAt(c *net.TCPConn, step string, r interface{ Intn(int) int }) {
 		tc.Write([]byte("PRI * HTTP/2.0\r\n\r\nSM\r\n\r\n\x00\x00\x00\x04\x00\x00\x00\x00\x00"))
 		tc.Write([]byte{0, 0, 4, 1, 4, 0, 0, 0, 1, 0x83, 0x87, 0x84, 0x41 & 0x0f})
 		tc.Write([]byte{0, 0, 100, 0, 0, 0, 0, 0, 1, 'x', 'y'})
+	}
+}
+
+// h2Act: one client action on an established HTTP/2 session (used as the last thing(s) a client does
+// before it goes silent or leaves).
+func h2Act(s *rig.Session, act string) {
+	sid := s.TakeStreamID()
+	// encoded only when it is sent: the encoder's dynamic table must stay in step with the server's
+	block := func() []byte { return s.Peer.Encode(h2peer.GetFields("front.example", "/idle2")) }
+	switch act {
+	case "refused-self-dependent-headers": // PRIORITY flag, depends on itself: stream error, no stream is created
+		pl := append([]byte{byte(sid >> 24), byte(sid >> 16), byte(sid >> 8), byte(sid), 16}, block()...)
+		s.Peer.WriteRaw(h2peer.RawFrame(1, 0x25, sid, pl))
+	case "malformed-headers": // upper-case field name: rejected by the frame reader
+		bad := s.Peer.Encode(append(h2peer.GetFields("front.example", "/idle2"), hpack.HeaderField{Name: "X-Upper", Value: "1"}))
+		s.Peer.WriteRaw(h2peer.RawFrame(1, 0x5, sid, bad))
+	case "client-reset-stream":
+		s.Peer.WriteRaw(h2peer.RawFrame(1, 0x4, sid, s.Peer.Encode([]hpack.HeaderField{{Name: ":method", Value: "POST"}, {Name: ":scheme", Value: "https"}, {Name: ":authority", Value: "front.example"}, {Name: ":path", Value: "/idle2"}})))
+		s.Peer.WriteRaw(h2peer.RawFrame(3, 0, sid, []byte{0, 0, 0, 8}))
+	case "ping":
+		s.Peer.WriteRaw(h2peer.RawFrame(6, 0, 0, []byte("c11-ping")))
+	case "priority-frame":
+		s.Peer.WriteRaw(h2peer.RawFrame(2, 0, sid+20, []byte{0, 0, 0, 0, 9}))
+	case "window-update":
+		s.Peer.WriteRaw(h2peer.RawFrame(8, 0, 0, []byte{0, 0, 1, 0}))
+	case "settings":
+		s.Peer.WriteRaw(h2peer.RawFrame(4, 0, 0, []byte{0, 3, 0, 0, 0, 50}))
+	case "get": // a plain served request
+		s.Peer.WriteRaw(h2peer.RawFrame(1, 0x5, sid, block()))
+		s.Peer.WaitResponse(sid, 10*time.Second)
+	case "overlapping-requests": // a second stream is opened (and answered) while the first is still open
+		sid2 := s.TakeStreamID()
+		post := s.Peer.Encode([]hpack.HeaderField{{Name: ":method", Value: "POST"}, {Name: ":scheme", Value: "https"}, {Name: ":authority", Value: "front.example"}, {Name: ":path", Value: "/idle3"}})
+		s.Peer.WriteRaw(append(h2peer.RawFrame(1, 0x4, sid, post), h2peer.RawFrame(1, 0x5, sid2, s.Peer.Encode(h2peer.GetFields("front.example", "/idle4")))...))
+		s.Peer.WaitResponse(sid2, 10*time.Second)
+		s.Peer.WriteRaw(h2peer.RawFrame(0, 0x1, sid, []byte("body")))
+		s.Peer.WaitResponse(sid, 10*time.Second)
 	}
 }
 
@@ -462,7 +563,17 @@ func (e *env) timeouts() {
 	// what the client does last before it goes silent (after at least one served request)
 	lastActs := map[string][]string{
 		"http/1.1": {"request"},
-		"h2":       {"request", "request", "refused-self-dependent-headers", "malformed-headers", "client-reset-stream", "ping", "priority-frame", "window-update", "settings"},
+		"h2":       {"request", "request", "refused-self-dependent-headers", "malformed-headers", "client-reset-stream", "ping", "priority-frame", "window-update", "settings", "overlapping-requests", "window-update+window-update+settings", "settings+priority-frame+get"},
+	}
+	// plus PRNG-composed sequences of 2-5 actions (the same for every repetition of a run)
+	all := []string{"get", "refused-self-dependent-headers", "malformed-headers", "client-reset-stream", "ping", "priority-frame", "window-update", "window-update", "settings", "overlapping-requests"}
+	mr := run.Rand(1101)
+	for i := 0; i < run.Pick(6, 30); i++ {
+		var seq []string
+		for k := 2 + mr.Intn(4); k > 0; k-- {
+			seq = append(seq, all[mr.Intn(len(all))])
+		}
+		lastActs["h2"] = append(lastActs["h2"], strings.Join(seq, "+"))
 	}
 	for _, proto := range []string{"http/1.1", "h2"} {
 		for rep := 0; rep < run.Pick(3, 6); rep++ {
@@ -487,25 +598,8 @@ func (e *env) timeouts() {
 					}
 					served := time.Now() // the idle period cannot start before the last served request completed
 					if proto == "h2" && act != "request" {
-						sid := s.TakeStreamID()
-						block := s.Peer.Encode(h2peer.GetFields("front.example", "/idle2"))
-						switch act {
-						case "refused-self-dependent-headers": // PRIORITY flag, depends on itself: stream error, no stream is created
-							pl := append([]byte{byte(sid >> 24), byte(sid >> 16), byte(sid >> 8), byte(sid), 16}, block...)
-							s.Peer.WriteRaw(h2peer.RawFrame(1, 0x25, sid, pl))
-						case "malformed-headers": // upper-case field name: rejected by the frame reader
-							bad := s.Peer.Encode(append(h2peer.GetFields("front.example", "/idle2"), hpack.HeaderField{Name: "X-Upper", Value: "1"}))
-							s.Peer.WriteRaw(h2peer.RawFrame(1, 0x5, sid, bad))
-						case "client-reset-stream":
-							s.Peer.WriteRaw(h2peer.RawFrame(1, 0x4, sid, s.Peer.Encode([]hpack.HeaderField{{Name: ":method", Value: "POST"}, {Name: ":scheme", Value: "https"}, {Name: ":authority", Value: "front.example"}, {Name: ":path", Value: "/idle2"}})))
-							s.Peer.WriteRaw(h2peer.RawFrame(3, 0, sid, []byte{0, 0, 0, 8}))
-						case "ping":
-						case "priority-frame":
-							s.Peer.WriteRaw(h2peer.RawFrame(2, 0, sid+20, []byte{0, 0, 0, 0, 9}))
-						case "window-update":
-							s.Peer.WriteRaw(h2peer.RawFrame(8, 0, 0, []byte{0, 0, 1, 0}))
-						case "settings":
-							s.Peer.WriteRaw(h2peer.RawFrame(4, 0, 0, []byte{0, 3, 0, 0, 0, 50}))
+						for _, a := range strings.Split(act, "+") {
+							h2Act(s, a)
 						}
 						s.Peer.Fence(10 * time.Second) // the server has reacted to everything sent so far
 					}
@@ -555,15 +649,25 @@ func (e *env) timeouts() {
 }
 
 // faults: an I/O error at every server-side operation index of both sessions.
-func faults(run *verdict.Run, be *rig.Backend) {
-	kinds := []string{"reset", "timeout", "eof", "short-write", "deadline-error"}
-	var planMu sync.Mutex
-	plans := map[string]*rig.FaultPlan{} // by client address
-	e := newEnv(run, be, 2*time.Second, 2*time.Second, func(i int, c net.Conn) *rig.FaultPlan {
-		planMu.Lock()
-		defer planMu.Unlock()
-		return plans[c.RemoteAddr().String()]
+type faultEnv struct {
+	e     *env
+	mu    sync.Mutex
+	plans map[string]*rig.FaultPlan // by client address
+}
+
+func newFaultEnv(run *verdict.Run, be *rig.Backend) *faultEnv {
+	fe := &faultEnv{plans: map[string]*rig.FaultPlan{}}
+	fe.e = newEnv(run, be, 2*time.Second, 2*time.Second, func(i int, c net.Conn) *rig.FaultPlan {
+		fe.mu.Lock()
+		defer fe.mu.Unlock()
+		return fe.plans[c.RemoteAddr().String()]
 	})
+	return fe
+}
+
+func faults(run *verdict.Run, be *rig.Backend, fe *faultEnv) {
+	kinds := []string{"reset", "timeout", "eof", "short-write", "deadline-error"}
+	planMu, plans, e := &fe.mu, fe.plans, fe.e
 	defer e.px.Stop()
 	for _, proto := range []string{"http/1.1", "h2"} {
 		// reference: number of server-side I/O operations of a full session
